@@ -62,6 +62,7 @@ class FakeKernel:
         self.spd = {}            # (selector key, dir) -> decoded policy
         self.requests = []       # every request: dict(idx, raw, msg|None, error, applied)
         self.fault_plan = {}     # request index -> ('errno', -N) | ('oserror', N)
+        self.port_ids_like_linux = True
         self.socket_faults = {}  # request index -> errno: creating the netlink socket for that request fails with OSError
         self.fault_types = {}    # request name (NEWSA, DELSA, ...) -> the same, for EVERY request of that type (a persistent refusal)
         self.events = collections.deque()   # kernel -> daemon messages waiting on the event socket
@@ -96,7 +97,9 @@ class FakeKernel:
                 rec['error'] = self._apply(msg)
                 rec['applied'] = rec['error'] == 0
         self._notify(rec)
-        return xfrmdec.enc_ack(bytes(raw), rec['error'])
+        # the answer carries the port id of the request socket (never the process id here: the event socket took that one)
+        self.port_seq = getattr(self, 'port_seq', 0) + 1
+        return xfrmdec.enc_ack(bytes(raw), rec['error'], port_id=(0xFFFFEFFF - self.port_seq % 4096) if self.port_ids_like_linux else 0)
 
     def _notify(self, rec):
         if W.cur is not None and W.cur.step_nl is not None:
